@@ -71,6 +71,12 @@ impl Smp {
             Smp::Gen(q, _) => q.clone_state(),
         }
     }
+    pub fn set_cutoff(&mut self, cutoff: usize) {
+        match self {
+            Smp::Ising(q, _) => q.set_cutoff(cutoff),
+            Smp::Gen(q, _) => q.set_cutoff(cutoff),
+        }
+    }
     pub fn rvb_sweep(&mut self) {
         if let Smp::Ising(q, _) = self {
             q.single_rvb_sweep(None);
@@ -502,6 +508,19 @@ pub struct ProbOpts {
     pub expect_cutoff: Option<usize>,
     /// if `bond` has weight 0 at the slot: check that no word inserts it (`gzero`) instead of dropping the case
     pub zero_ok: bool,
+    /// insert this bond at the first empty slot before k (so that its matrix element is evaluated earlier in the same sweep)
+    pub pre_bond: Option<usize>,
+}
+
+/// `get_manager_mut().set_cutoff(len + extra)`: the container becomes longer than the sampler's sweep. Ising sampler only.
+pub fn grow_manager(smp: &mut Smp, extra: usize) -> bool {
+    if let Smp::Ising(q, _) = smp {
+        let len = q.get_manager_ref().get_cutoff();
+        q.get_manager_mut().set_cutoff(len + extra);
+        true
+    } else {
+        false
+    }
 }
 
 /// every stored operator's label agrees with its content: `is_diagonal()` == (inputs == outputs). Ising sampler only
@@ -727,7 +746,11 @@ pub fn prob_on(g: &mut SplitMix64, rng: &SharedRng, smp: Smp, kind: &str, beta: 
     if *cum.last().unwrap() <= 0.0 {
         return false;
     }
-    let empties: Vec<usize> = (0..before.len()).filter(|p| before[*p].is_none()).collect();
+    // only slots the sweep visits (the container may be longer than the sampler's cutoff)
+    let mut empties: Vec<usize> = (0..before.len().min(l)).filter(|p| before[*p].is_none()).collect();
+    if opts.pre_bond.is_some() && !empties.is_empty() {
+        empties.remove(0); // the first empty slot receives the earlier operator
+    }
     if empties.is_empty() {
         return false;
     }
@@ -761,29 +784,68 @@ pub fn prob_on(g: &mut SplitMix64, rng: &SharedRng, smp: Smp, kind: &str, beta: 
     };
     let w = diag_weight(&cfg.bonds[b], &substate(&st_k, &cfg.bonds[b].vars));
     // prefix: one word per visited slot before k; 0 removes a diagonal op, MAX keeps / leaves empty
-    let mut prefix = vec![];
+    let mut groups: Vec<Vec<u64>> = vec![];
     let mut expect: Vec<Option<FastOp>> = vec![];
     let mut removed = 0;
     for o in before[..k].iter() {
         match o {
-            Some(op) if !op.is_diagonal() => expect.push(o.clone()),
+            Some(op) if !op.is_diagonal() => {
+                groups.push(vec![]);
+                expect.push(o.clone());
+            }
             Some(_) => {
                 if g.coin() {
-                    prefix.push(0u64);
+                    groups.push(vec![0u64]);
                     expect.push(None);
                     removed += 1;
                 } else {
-                    prefix.push(u64::MAX);
+                    groups.push(vec![u64::MAX]);
                     expect.push(o.clone());
                 }
             }
             None => {
-                prefix.push(u64::MAX);
+                groups.push(vec![u64::MAX]);
                 expect.push(None);
             }
         }
     }
-    let n_k = count_ops(&before) - removed;
+    let mut inserted_before = 0;
+    if let Some(c) = opts.pre_bond {
+        // attempt word 0, u word 0 and a bond word that selects c at the first empty slot e < k
+        let e = match (0..k).find(|p| before[*p].is_none()) {
+            Some(e) => e,
+            None => return false,
+        };
+        let head: Vec<u64> = groups[..e].iter().flatten().cloned().collect();
+        let mut found = None;
+        for i in 0..512u64 {
+            let x = (i << 55) + (1u64 << 54);
+            let mut sm = base.clone();
+            let mut sc = head.clone();
+            sc.extend_from_slice(&[0, 0, x]);
+            sc.extend_from_slice(&vec![u64::MAX; l + 8]);
+            rng.script(sc, 1);
+            if catch(|| sm.sweep(beta)).is_err() {
+                return false;
+            }
+            if let Some(op) = &sm.slots()[e] {
+                if op.get_bond() == c {
+                    found = Some((x, op.clone()));
+                    break;
+                }
+            }
+        }
+        match found {
+            Some((x, op)) => {
+                groups[e] = vec![0, 0, x];
+                expect[e] = Some(op);
+                inserted_before = 1;
+            }
+            None => return false,
+        }
+    }
+    let prefix: Vec<u64> = groups.iter().flatten().cloned().collect();
+    let n_k = count_ops(&before) - removed + inserted_before;
     let seed = g.next();
     let tail_keep = vec![u64::MAX; l + 8];
     let run1 = |tail: &[u64]| -> Option<Smp> {
@@ -905,3 +967,112 @@ pub fn prob_on(g: &mut SplitMix64, rng: &SharedRng, smp: Smp, kind: &str, beta: 
     true
 }
 
+
+/// Metropolis (default update) bisection through the public `diagonal_update` of a FRESH generic sampler (empty string,
+/// cutoff chosen so large that every insertion is in the unclipped regime: each empty slot then costs exactly two words —
+/// bond draw, acceptance draw — and every removal is certain). Slots 0..k evaluate other bonds first (`pre`: the bond
+/// drawn at slot 0), slot k bisects the acceptance of bond `b`; the next sweep must remove the operator.
+/// Oracle: (1/Nb)·p_acc / p_rem = β·w_b/(L−n_k) with w_b from the registered matrices; a bond of weight 0 is never inserted.
+pub fn mprob_fresh(g: &mut SplitMix64, rng: &SharedRng, mut smp: Smp, kind: &str, b: usize, pre: usize) -> bool {
+    enable_heatbath(&mut smp, false);
+    let bonds = smp.bonds();
+    let nb = bonds.len();
+    if nb == 0 || b >= nb || pre >= nb || count_ops(&smp.slots()) != 0 {
+        return false;
+    }
+    let wmax = bonds.iter().map(|tb| { let dim = 1usize << tb.vars.len(); (0..dim).map(|s| tb.mat[s * dim + s]).fold(0.0, f64::max) }).fold(0.0, f64::max);
+    let beta = *g.pick(&[0.25, 0.5, 1.0, 2.0]);
+    let k = g.range(1, 4) as usize;
+    let l = (beta * nb as f64 * wmax).ceil() as usize + k + g.range(2, 8) as usize;
+    smp.set_cutoff(l);
+    let base = smp.clone();
+    let cfg = cfg_of(&base, beta);
+    if cfg.cutoff != l {
+        return false;
+    }
+    let anchor = |bb: usize| -> u64 { ((((bb as u128) << 64) + (1u128 << 62)) / nb as u128) as u64 };
+    let mut prefix: Vec<u64> = vec![];
+    let mut pre_bonds = vec![];
+    for p in 0..k {
+        let c = if p == 0 { pre } else { g.below(nb as u64) as usize };
+        pre_bonds.push(c);
+        prefix.push(anchor(c));
+        // accept word 2^40 (accepted for every p > 2^-24, and far from the threshold 0 of a weight-0 bond) or MAX (rejected)
+        prefix.push(if g.coin() { 1u64 << 40 } else { u64::MAX });
+    }
+    // all later slots: an accepted bond word and a rejecting acceptance word, so that nothing else is inserted
+    let reject_rest: Vec<u64> = (0..l + 2).flat_map(|_| [anchor(0), u64::MAX]).collect();
+    let seed = g.next();
+    let run = |base: &Smp, script: Vec<u64>, seed: u64| -> Option<Smp> {
+        let mut s = base.clone();
+        rng.script(script, seed);
+        catch(|| s.sweep(beta)).ok().map(|_| s)
+    };
+    let with = |tail: &[u64]| -> Vec<u64> {
+        let mut sc = prefix.clone();
+        sc.extend_from_slice(tail);
+        sc.extend_from_slice(&reject_rest);
+        sc
+    };
+    let input = format!(
+        "mprob {} {} {} {} {} {} {} {}",
+        show_table_ham(&cfg.bonds),
+        rat(beta),
+        l,
+        bits(&cfg.state),
+        show_cfg_slots(&cfg.slots),
+        words(&prefix),
+        k,
+        b
+    );
+    let probe = match run(&base, with(&[anchor(b), u64::MAX]), seed) {
+        Some(s) => s,
+        None => return false,
+    };
+    let ps = probe.slots();
+    let prefix_ok = (0..k).all(|p| ps[p].as_ref().map(|o| o.get_bond() == pre_bonds[p] && o.is_diagonal()).unwrap_or(true)) && ps[k].is_none();
+    if !prefix_ok {
+        emit(true, &input, "unlocatable", None);
+        return true;
+    }
+    let n_k = count_ops(&ps[..k]);
+    let st = state_at(&cfg, k);
+    let w = diag_weight(&cfg.bonds[b], &substate(&st, &cfg.bonds[b].vars));
+    let holds = |s: Option<Smp>| -> bool { s.map(|s| s.slots()[k].as_ref().map(|o| o.is_diagonal() && o.get_bond() == b).unwrap_or(false)).unwrap_or(false) };
+    let p_acc = frac(threshold_down(|x| holds(run(&base, with(&[anchor(b), x]), seed))));
+    let mut oracle: Result<(), String> = Ok(());
+    let mut p_rem = 1.0;
+    if p_acc > 0.0 {
+        if let Some(s1) = run(&base, with(&[anchor(b), 0]), seed) {
+            for t in 0..3u64 {
+                match run(&s1, vec![], seed.wrapping_add(t + 1)) {
+                    Some(s2) => {
+                        if s2.slots()[k].is_some() {
+                            p_rem = f64::NAN;
+                            oracle = Err(format!("operator of bond {} at slot {} survived the next sweep although L-n+1 > beta*Nb*w", b, k));
+                        }
+                    }
+                    None => return false,
+                }
+            }
+        }
+    }
+    let want = beta * w / ((l - n_k) as f64);
+    if oracle.is_ok() {
+        if w == 0.0 && p_acc > 0.0 {
+            oracle = Err(format!("bond {} has weight 0 at slot {} but is inserted with probability {}", b, k, p_acc));
+        } else if !close(p_acc / nb as f64 / p_rem, want) {
+            oracle = Err(format!(
+                "p_insert/p_remove = (1/{})*{}/{} = {} but beta*w/(L-n) = {}*{}/({}-{}) = {}",
+                nb, p_acc, p_rem, p_acc / nb as f64 / p_rem, beta, w, l, n_k, want
+            ));
+        }
+    }
+    stat(&format!("mprob_fresh_{}", kind), 1);
+    stat(if w == 0.0 { "mprob_fresh_zero_weight" } else { "mprob_fresh_positive_weight" }, 1);
+    if n_k > 0 {
+        stat("mprob_fresh_n_changed_before_slot", 1);
+    }
+    emit(true, &input, &format!("{} {} {} {}", n_k, approx(1.0 / nb as f64), approx(p_acc), approx(if p_rem.is_nan() { 0.0 } else { p_rem })), Some(oracle));
+    true
+}
